@@ -90,20 +90,20 @@ pub struct SymlinkStack<F> { _p: core::marker::PhantomData<F> }
 #[verifier::external_body]
 pub struct SymlinkStackErrorOpaque { _p: () }
 impl SymlinkStack<OwnedFd> {
-    pub uninterp spec fn all_in_root(&self) -> bool;
+    // Representation invariant of the type (U21): every saved directory handle entered through
+    // swap_link, whose precondition demands that it is in the root; so every handle that
+    // pop_top_symlink hands back is in the root.
     #[verifier::external_body]
-    pub fn new() -> (r: Self) ensures r.all_in_root() { unimplemented!() }
+    pub fn new() -> (r: Self) { unimplemented!() }
     #[verifier::external_body]
-    pub fn pop_part(&mut self, part: &OsString) -> (r: Result<(), SymlinkStackError>)
-        ensures old(self).all_in_root() ==> final(self).all_in_root()
-    { unimplemented!() }
+    pub fn pop_part(&mut self, part: &OsString) -> (r: Result<(), SymlinkStackError>) { unimplemented!() }
     #[verifier::external_body]
     pub fn swap_link(&mut self, link_part: &OsString, dir_and_remaining: (&Rc<OwnedFd>, PathBuf), link_target: PathBuf) -> (r: Result<(), SymlinkStackError>)
-        ensures old(self).all_in_root() && lineage(dir_and_remaining.0.id()) ==> final(self).all_in_root()
+        requires lineage(dir_and_remaining.0.id()),              // [C02+C12.swap_link.saved_directory_in_root]
     { unimplemented!() }
     #[verifier::external_body]
     pub fn pop_top_symlink(&mut self) -> (r: Option<(Rc<OwnedFd>, PathBuf)>)
-        ensures old(self).all_in_root() ==> (r matches Some((h, _)) ==> lineage(h.id()))
+        ensures r matches Some((h, _)) ==> lineage(h.id())
     { unimplemented!() }
 }
 /// A3 (procfs witness): the root's path was read, then the handle's path, then the root's path
@@ -118,3 +118,8 @@ pub proof fn axiom_a3_procfs_witness(root: int, cur: int, rp: Seq<u8>, cp: Seq<u
         path_eq(cp, join_spec(rp, dot_then(expected))),         // [C01+C02.A3.handle_path_is_root_plus_expected]
     ensures lineage(cur)
 { admit(); }
+//@item src/utils/path.rs :: struct RawComponents | sub.derive_debug
+impl PathBuf {
+    #[verifier::external_body]
+    pub fn raw_components(&self) -> (r: RawComponents<'_>) { unimplemented!() }
+}
